@@ -110,7 +110,7 @@ def main():
     if only:
         seeds = [s for s in seeds if any(s == o or (o.endswith("*") and s.startswith(o[:-1])) for o in only)]
     os.makedirs(SW, exist_ok=True)
-    workers = 5 if suite else 12
+    workers = int(os.environ.get("SEED_WORKERS", 5 if suite else 12))
     with cf.ThreadPoolExecutor(workers) as ex:
         for r in ex.map(lambda s: evaluate(s, suite), seeds):
             prop = r["seed"].split("_")[0]
